@@ -245,6 +245,8 @@ TraceMatch ==
          \* learned text must be stable: the same value identity always stores the same lines
          \* C14: what was just stored parses to the same JSON value as the input
          lossMM == (IF E.lossless = "no" THEN <<MM("json.lossy", "", "", st, p, hdr, "")>> ELSE <<>>)
+                   \* C15: what was stored is the input with exactly the targeted values replaced
+                   \o (IF E.docok = "no" THEN <<MM("doc.mismatch", "", "", st, p, hdr, "")>> ELSE <<>>)
                    \* C15: the bytes the caller passed in are never modified
                    \o (IF ~E.bufsame THEN <<MM("buf.modified", "", "", st, p, hdr, "")>> ELSE <<>>)
          detMM == IF ~c.val.known /\ c.val.vid \in DOMAIN fmtOf /\ Writes(eff) /\ E.hasfs
